@@ -809,6 +809,10 @@ static PyObject* base_syrk(PyObject *self, PyObject *args, PyObject *kwrds)
 #endif
   } else {
 
+    if (id == COMPLEX)
+      PY_ERR(PyExc_NotImplementedError,
+          "complex sparse syrk not implemented");
+
     void *z = NULL;
 #if PY_MAJOR_VERSION >= 3
     if (sp_syrk[id](uplo_, trans_,
